@@ -104,6 +104,26 @@ open MdIt.Inline MdIt.Pipeline
 #check @entity_end_not_inside
 #check @backticks_end_not_inside
 #check @escape_end_inside_iff
+#check @CS.endHyp_holds
+#check @CS.marksHyp_holds
+#check @CS.backL2_holds
+#check @CS.agreeHyp_holds
+#check @CS.rule_end_not_interior
+#check @CS.linkRule_closedAt
+#check @CS.skip_top
+#check @CS.top_total
+#check @CS.parseInline_total_of_nested
+#check @CS.nested_eq
+#check @CS.nocut_init
+#check @CS.entryP_NF
+#check @CS.nestHyps_noesc
+#check @CS.parseInline_total_noesc
+#check @parseInline_total_noesctick
+#check @noEscTickTick_of_pfth
+#check @docNoEscTickTick_of_src
+#check @doc_total_noesctick
+#check @doc_total_src_noesc
+#check @doc_total_stock_nodouble
 
 #print axioms lookahead_guard_free
 #print axioms skip_guard_free
@@ -208,3 +228,23 @@ open MdIt.Inline MdIt.Pipeline
 #print axioms entity_end_not_inside
 #print axioms backticks_end_not_inside
 #print axioms escape_end_inside_iff
+#print axioms CS.endHyp_holds
+#print axioms CS.marksHyp_holds
+#print axioms CS.backL2_holds
+#print axioms CS.agreeHyp_holds
+#print axioms CS.rule_end_not_interior
+#print axioms CS.linkRule_closedAt
+#print axioms CS.skip_top
+#print axioms CS.top_total
+#print axioms CS.parseInline_total_of_nested
+#print axioms CS.nested_eq
+#print axioms CS.nocut_init
+#print axioms CS.entryP_NF
+#print axioms CS.nestHyps_noesc
+#print axioms CS.parseInline_total_noesc
+#print axioms parseInline_total_noesctick
+#print axioms noEscTickTick_of_pfth
+#print axioms docNoEscTickTick_of_src
+#print axioms doc_total_noesctick
+#print axioms doc_total_src_noesc
+#print axioms doc_total_stock_nodouble
